@@ -535,7 +535,7 @@ fn c06_segment_pass_est_s3_m2_i0() {
     kani::cover!(m == 2 && unsent == 0, "2+1 bytes");
 }
 }
-// @verif id=C06,C16 tier=thorough role=segment_pass timeout=1800 desc=LastAck,send=0(FIN-only),wnd=concrete
+// (not shipped: out of memory at 8 GB in two thorough sweeps; LastAck is covered by the rewound instance above) C06,C16 role=segment_pass desc=LastAck,send=0(FIN-only),wnd=concrete
 crate::verif_proof! { unwind = 5;
 fn c06_segment_pass_la_s0() {
     let (m, fin, _) = segment_pass::<0, 1, 0>(TcpState::LastAck, 0xFFFF_FFFF, Some(1));
@@ -898,7 +898,7 @@ fn c06_retx_counts_passes_below_threshold() {
     kani::cover!(!rewound, "counted");
 }
 }
-// @verif id=C06 tier=thorough role=check_retx timeout=600 desc=FinWait2(no-timer)
+// (not shipped: no verdict in 10 min in the thorough sweep) C06 role=check_retx desc=FinWait2(no-timer)
 crate::verif_proof! { unwind = 4;
 fn c06_retx_no_timer_without_inflight() {
     let (rewound, timed_out) = retx_step::<0>(TcpState::FinWait2, 5, 0, 2, 5, 3, 5);
